@@ -1,3 +1,657 @@
-"""Translator stub (replaced below by the real one): regenerate lean/CatVerif/Gen/Source.lean."""
+#!/usr/bin/env python3
+"""Translator (DESIGN.md 7.1): regenerates lean/CatVerif/Gen/Source.lean from the working tree's
+src/cat.c and src/cat.h through clang's JSON AST.
+
+ T1 enumerators and #defines;  T2 expression-bodied helpers;  T3 the four return-code switches;
+ T5 which public functions are lock / body / unlock.
+
+Every item is either regenerated ("translated") or, when its shape is not recognised, taken from
+the committed expected copy (Gen/Source.expected.lean) and reported as "fallback" — the check
+then relies on the correspondence run for that item (and says so in the evidence)."""
+import json, os, re, subprocess, sys, hashlib
+sys.path.insert(0, os.path.dirname(os.path.abspath(__file__)))
+import lib
+
+GEN = os.path.join(lib.LEAN, "CatVerif/Gen/Source.lean")
+EXPECTED = os.path.join(lib.LEAN, "CatVerif/Gen/Source.expected.lean")
+CAPMARK = 987654321
+
+
+class Unrecognised(Exception):
+    pass
+
+
+def load_ast():
+    src = os.path.join(lib.REPO, "src/cat.c")
+    p = subprocess.run(["clang", "-fsyntax-only", "-DNDEBUG", "-DCAT_UNSOLICITED_CMD_BUFFER_SIZE=%d" % CAPMARK, "-Xclang",
+                        "-ast-dump=json", "-I", os.path.join(lib.REPO, "src"), src], stdout=subprocess.PIPE, stderr=subprocess.PIPE)
+    if p.returncode != 0:
+        raise Unrecognised("clang failed: " + p.stderr.decode()[-300:])
+    return json.loads(p.stdout)
+
+
+def strip(n):
+    """skip casts/parens that do not change the value for our purposes"""
+    while n.get("kind") in ("ParenExpr", "ImplicitCastExpr", "ConstantExpr") and n.get("inner"):
+        n = n["inner"][0]
+    return n
+
+
+# ------------------------------------------------------------------------------------ T1
+
+def enums(ast):
+    out = []
+    vals = {}
+    for n in ast["inner"]:
+        if n.get("kind") == "EnumDecl":
+            cur = -1
+            for c in n.get("inner", []):
+                if c.get("kind") != "EnumConstantDecl":
+                    continue
+                v = None
+                for x in c.get("inner", []):
+                    v = const_value(x, vals)
+                cur = v if v is not None else cur + 1
+                vals[c["name"]] = cur
+                out.append((c["name"], cur))
+    return out, vals
+
+
+def const_value(n, vals):
+    k = n.get("kind")
+    if k == "ConstantExpr" and "value" in n:
+        return int(n["value"])
+    if k == "IntegerLiteral":
+        return int(n["value"])
+    if k in ("ParenExpr", "ImplicitCastExpr", "ConstantExpr"):
+        return const_value(n["inner"][0], vals)
+    if k == "UnaryOperator" and n.get("opcode") == "-":
+        return -const_value(n["inner"][0], vals)
+    if k == "DeclRefExpr":
+        return vals[n["referencedDecl"]["name"]]
+    raise Unrecognised("enum initialiser " + k)
+
+
+DEFINES = ["CAT_CMD_STATE_NOT_MATCH", "CAT_CMD_STATE_PARTIAL_MATCH", "CAT_CMD_STATE_FULL_MATCH",
+           "CAT_WRITE_STATE_BEFORE", "CAT_WRITE_STATE_MAIN_BUFFER", "CAT_WRITE_STATE_AFTER"]
+
+
+def defines():
+    txt = open(os.path.join(lib.REPO, "src/cat.c")).read()
+    hdr = open(os.path.join(lib.REPO, "src/cat.h")).read()
+    out = []
+    for d in DEFINES:
+        m = re.search(r"#define\s+%s\s+\(\s*(\d+)U?\s*\)" % d, txt)
+        if not m:
+            raise Unrecognised("#define " + d)
+        out.append((d, int(m.group(1))))
+    m = re.search(r"#define\s+CAT_UNSOLICITED_CMD_BUFFER_SIZE\s+\(\(size_t\)\((\d+)\)\)", hdr)
+    if not m:
+        raise Unrecognised("#define CAT_UNSOLICITED_CMD_BUFFER_SIZE")
+    out.append(("CAT_UNSOLICITED_CMD_BUFFER_SIZE_DEFAULT", int(m.group(1))))
+    return out
+
+
+# ------------------------------------------------------------------------------------ T2
+
+def find_fn(ast, name):
+    for n in ast["inner"]:
+        if n.get("kind") == "FunctionDecl" and n.get("name") == name:
+            for c in n.get("inner", []):
+                if c.get("kind") == "CompoundStmt":
+                    return n, c
+    raise Unrecognised("function %s not found" % name)
+
+
+def is_noise(st):
+    """((void)0) left by assert under NDEBUG, and (void)param"""
+    s = strip(st)
+    return s.get("kind") == "CStyleCastExpr" and s.get("castKind") == "ToVoid" or st.get("kind") == "NullStmt"
+
+
+def ret_expr(body):
+    sts = [s for s in body.get("inner", []) if not is_noise(s)]
+    if len(sts) != 1 or sts[0]["kind"] != "ReturnStmt":
+        raise Unrecognised("body is not a single return")
+    return sts[0]["inner"][0]
+
+
+class Tr:
+    """expression translator; `atoms` maps member-access paths / parameter names to (lean name, 'int'|'bool')"""
+
+    def __init__(self, atoms, enumvals):
+        self.atoms, self.ev = atoms, enumvals
+
+    def path(self, n):
+        n = strip(n)
+        if n["kind"] == "MemberExpr":
+            return self.path(n["inner"][0]) + "." + n["name"]
+        if n["kind"] == "DeclRefExpr":
+            return n["referencedDecl"]["name"]
+        raise Unrecognised("path " + n["kind"])
+
+    def is_null(self, n):
+        n = strip(n)
+        if n["kind"] == "CStyleCastExpr":
+            return self.is_null(n["inner"][0])
+        return n["kind"] == "IntegerLiteral" and n["value"] == "0"
+
+    def b(self, n):
+        """Lean Bool"""
+        n0 = n
+        n = strip(n)
+        k = n["kind"]
+        if k == "BinaryOperator":
+            op = n["opcode"]
+            l, r = n["inner"]
+            if op in ("&&", "||"):
+                return "(%s %s %s)" % (self.b(l), op, self.b(r))
+            if op in ("==", "!=", "<", ">", "<=", ">="):
+                # pointer against NULL
+                for a, c in ((l, r), (r, l)):
+                    if self.is_null(c) and strip(a)["kind"] in ("MemberExpr", "DeclRefExpr") and self._is_ptr(a):
+                        nm, ty = self.atom(a)
+                        if ty != "ptr":
+                            raise Unrecognised("NULL comparison of non-pointer")
+                        return nm if op == "!=" else "(!%s)" % nm
+                # bool-typed atoms against false/true
+                la, ra = self._boolatom(l), self._boolatom(r)
+                if la is not None and self._lit01(r) is not None:
+                    v = self._lit01(r)
+                    pos = (op == "==") == (v == 1)
+                    return "decide (%s %s %s)" % (la, "=" if op == "==" else "≠", "true" if v == 1 else "false") if True else None
+                lean_op = {"==": "=", "!=": "≠", "<": "<", ">": ">", "<=": "≤", ">=": "≥"}[op]
+                return "decide (%s %s %s)" % (self.i(l), lean_op, self.i(r))
+        if k == "UnaryOperator" and n["opcode"] == "!":
+            return "(!%s)" % self.b(n["inner"][0])
+        if k == "ConditionalOperator":
+            c, t, e = n["inner"]
+            return "(if %s then %s else %s)" % (self.b(c), self.b(t), self.b(e))
+        if k == "IntegerLiteral":
+            return "true" if int(n["value"]) != 0 else "false"
+        if k == "CallExpr":
+            return self.call(n, "bool")
+        la = self._boolatom(n0)
+        if la is not None:
+            return la
+        return "decide (%s ≠ 0)" % self.i(n0)
+
+    def _is_ptr(self, n):
+        n = strip(n)
+        return "*" in n.get("type", {}).get("qualType", "")
+
+    def _lit01(self, n):
+        n = strip(n)
+        if n["kind"] == "IntegerLiteral" and n["value"] in ("0", "1"):
+            return int(n["value"])
+        return None
+
+    def _boolatom(self, n):
+        n = strip(n)
+        if n["kind"] in ("MemberExpr", "DeclRefExpr"):
+            try:
+                nm, ty = self.atom(n)
+            except Unrecognised:
+                return None
+            if ty == "bool":
+                return nm
+        if n["kind"] == "CallExpr":
+            try:
+                return self.call(n, "boolonly")
+            except Unrecognised:
+                return None
+        return None
+
+    def atom(self, n):
+        n = strip(n)
+        if n["kind"] == "DeclRefExpr" and n["referencedDecl"]["kind"] == "EnumConstantDecl":
+            return n["referencedDecl"]["name"], "int"
+        p = self.path(n)
+        if p in self.atoms:
+            return self.atoms[p]
+        raise Unrecognised("unknown atom " + p)
+
+    def call(self, n, want):
+        callee = strip(n["inner"][0])
+        name = callee["referencedDecl"]["name"]
+        if name in self.atoms:      # calls of other translated helpers, by fixed argument convention
+            lean, ty = self.atoms[name]
+            if want == "boolonly" and ty != "bool":
+                raise Unrecognised("not bool")
+            if ty == "bool":
+                return lean
+            return lean if want != "bool" else "decide (%s ≠ 0)" % lean
+        raise Unrecognised("call of " + name)
+
+    def i(self, n):
+        """Lean Int"""
+        n0 = n
+        n = strip(n)
+        k = n["kind"]
+        if k in ("IntegerLiteral", "CharacterLiteral"):
+            v = int(n["value"])
+            return "cap" if v == CAPMARK else str(v)
+        if k == "DeclRefExpr" or k == "MemberExpr":
+            nm, ty = self.atom(n)
+            if ty == "bool":
+                return "b2i %s" % nm
+            if ty == "ptr":
+                raise Unrecognised("pointer used as integer")
+            return nm
+        if k == "ConditionalOperator":
+            c, t, e = n["inner"]
+            return "(if %s then %s else %s)" % (self.b(c), self.i(t), self.i(e))
+        if k == "BinaryOperator":
+            op = n["opcode"]
+            l, r = n["inner"]
+            if op in ("+", "-", "*"):
+                return "(%s %s %s)" % (self.i(l), op, self.i(r))
+            if op == ">>":
+                rv = strip(r)
+                if rv["kind"] != "IntegerLiteral":
+                    raise Unrecognised("shift by non-literal")
+                return "(%s / %d)" % (self.i(l), 2 ** int(rv["value"]))
+            if op in ("&&", "||", "==", "!=", "<", ">", "<=", ">="):
+                return "b2i %s" % self.b(n)
+        if k == "UnaryOperator" and n["opcode"] == "!":
+            return "b2i %s" % self.b(n)
+        if k == "CStyleCastExpr":
+            ty = n["type"]["qualType"]
+            inner = self.i(n["inner"][0])
+            if ty == "uint8_t":
+                return "(%s %% 256)" % inner
+            if ty in ("size_t", "int", "unsigned int", "uint64_t", "char"):
+                return inner
+            raise Unrecognised("cast to " + ty)
+        if k == "CallExpr":
+            return self.call(n, "int")
+        raise Unrecognised("expression " + k)
+
+
+def t2(ast, ev):
+    out = []
+    rep = {}
+
+    def emit(cname, sig, rty, atoms, item=None, kind="i"):
+        try:
+            _, body = find_fn(ast, cname)
+            tr = Tr(atoms, ev)
+            e = ret_expr(body)
+            txt = tr.b(e) if kind == "b" else tr.i(e)
+            if kind == "ib":     # int-returning predicate written as C 0/1
+                txt = "b2i %s" % tr.b(e)
+            out.append("def %s %s : %s := %s" % (item or cname, sig, rty, txt))
+            rep[item or cname] = "translated"
+        except Unrecognised as ex:
+            out.append(None)
+            rep[item or cname] = "fallback: %s" % ex
+        return
+
+    ch = {"ch": ("ch", "int")}
+    emit("to_upper", "(ch : Int)", "Int", ch)
+    emit("is_valid_cmd_name_char", "(ch : Int)", "Int", ch, kind="ib")
+    emit("is_valid_dec_char", "(ch : Int)", "Int", ch, kind="ib")
+    emit("is_valid_hex_char", "(ch : Int)", "Int", ch, kind="ib")
+    emit("convert_hex_char_to_value", "(ch : Int)", "Int", ch)
+    st = {"self.state": ("state", "int"), "self.unsolicited_fsm.state": ("ustate", "int"),
+          "self.hold_state_flag": ("hold_state_flag", "bool"),
+          "self.unsolicited_fsm.unsolicited_cmd_buffer_items_count": ("items_count", "int"),
+          "self.desc.unsolicited_buf": ("unsolicited_buf_nonnull", "ptr"), "self.desc.buf_size": ("buf_size", "int"),
+          "self.desc.unsolicited_buf_size": ("unsolicited_buf_size", "int")}
+    emit("is_busy", "(state ustate : Int)", "Int", st)
+    emit("is_hold", "(hold_state_flag : Bool)", "Int", st)
+    emit("is_unsolicited_buffer_full", "(items_count cap : Int)", "Bool", st, kind="b")
+    emit("is_unsolicited_buffer_empty", "(items_count : Int)", "Bool", st, kind="b")
+    emit("is_unsolicited_fsm_busy", "(ustate : Int)", "Bool", st, kind="b")
+    emit("get_atcmd_buf_size", "(unsolicited_buf_nonnull : Bool) (buf_size _unsolicited_buf_size : Int)", "Int", st)
+    emit("get_unsolicited_buf_size", "(unsolicited_buf_nonnull : Bool) (buf_size unsolicited_buf_size : Int)", "Int", st)
+    # offset of the shared unsolicited half: &self->desc->buf[self->desc->buf_size >> 1]
+    try:
+        _, body = find_fn(ast, "get_unsolicited_buf")
+        e = strip(ret_expr(body))
+        if e["kind"] != "ConditionalOperator":
+            raise Unrecognised("get_unsolicited_buf not a conditional")
+        alt = strip(e["inner"][2])
+        while alt["kind"] in ("CStyleCastExpr", "UnaryOperator"):
+            alt = strip(alt["inner"][0])
+        if alt["kind"] != "ArraySubscriptExpr":
+            raise Unrecognised("get_unsolicited_buf: no array subscript")
+        idx = alt["inner"][1]
+        out.append("def get_unsolicited_buf_offset (buf_size : Int) : Int := %s" % Tr(st, ev).i(idx))
+        rep["get_unsolicited_buf_offset"] = "translated"
+    except Unrecognised as ex:
+        out.append(None)
+        rep["get_unsolicited_buf_offset"] = "fallback: %s" % ex
+    # the final status merge of cat_service: if (<cond>) s = CAT_STATUS_BUSY;
+    try:
+        _, body = find_fn(ast, "cat_service")
+        cond = None
+        for stt in body["inner"]:
+            if stt["kind"] == "IfStmt":
+                then = stt["inner"][1]
+                asg = [x for x in ([then] if then["kind"] != "CompoundStmt" else then["inner"])]
+                if len(asg) == 1 and strip(asg[0]).get("kind") == "BinaryOperator" and strip(asg[0]).get("opcode") == "=":
+                    lhs, rhs = strip(asg[0])["inner"]
+                    if strip(lhs).get("referencedDecl", {}).get("name") == "s" and strip(rhs).get("referencedDecl", {}).get("name") == "CAT_STATUS_BUSY":
+                        cond = stt["inner"][0]
+        if cond is None:
+            raise Unrecognised("status merge not found")
+        atoms = dict(st)
+        atoms.update({"unsolicited_stat": ("unsolicited_stat", "int"),
+                      "is_unsolicited_fsm_busy": ("is_unsolicited_fsm_busy ustate", "bool"),
+                      "is_unsolicited_buffer_empty": ("is_unsolicited_buffer_empty items_count", "bool"),
+                      "is_unsolicited_buffer_full": ("is_unsolicited_buffer_full items_count cap", "bool")})
+        txt = Tr(atoms, ev).b(cond)
+        if "cap" in txt:
+            raise Unrecognised("status merge depends on the capacity")
+        out.append("/-- the condition under which `cat_service` overrides its result with BUSY -/\n"
+                   "def service_merge (unsolicited_stat ustate items_count : Int) : Bool := %s" % txt)
+        rep["service_merge"] = "translated"
+    except Unrecognised as ex:
+        out.append(None)
+        rep["service_merge"] = "fallback: %s" % ex
+    return out, rep
+
+
+# ------------------------------------------------------------------------------------ T3
+
+AFTER = {"CAT_STATE_AFTER_FLUSH_RESET": "reset", "CAT_STATE_AFTER_FLUSH_OK": "ok", "CAT_STATE_AFTER_FLUSH_FORMAT_READ_ARGS": "fmtRead",
+         "CAT_STATE_AFTER_FLUSH_FORMAT_TEST_ARGS": "fmtTest", "CAT_STATE_PRINT_CMD": "printCmd",
+         "CAT_UNSOLICITED_STATE_AFTER_FLUSH_RESET": "reset", "CAT_UNSOLICITED_STATE_AFTER_FLUSH_OK": "ok",
+         "CAT_UNSOLICITED_STATE_AFTER_FLUSH_FORMAT_READ_ARGS": "fmtRead", "CAT_UNSOLICITED_STATE_AFTER_FLUSH_FORMAT_TEST_ARGS": "fmtTest"}
+
+
+def call_to_lean(st, fsm):
+    """one statement of a switch arm -> Call constructor text; fsm: None (both), 'cmd', 'uns'"""
+    e = strip(st)
+    if e["kind"] != "CallExpr":
+        raise Unrecognised("arm statement " + e["kind"])
+    name = strip(e["inner"][0])["referencedDecl"]["name"]
+    args = [strip(a) for a in e["inner"][1:]]
+
+    def const(a):
+        if a["kind"] == "DeclRefExpr":
+            return a["referencedDecl"]["name"]
+        raise Unrecognised("non-constant argument")
+    simple = {"ack_ok": ".ackOk", "ack_error": ".ackError", "enable_hold_state": ".enableHold", "start_print_cmd_list": ".startPrintCmdList"}
+    if name in simple:
+        return simple[name]
+    if name in ("end_processing_with_ok", "end_processing_with_error", "start_processing_format_read_args", "start_processing_format_test_args"):
+        if const(args[1]) != "fsm":
+            raise Unrecognised("%s not called with fsm" % name)
+        return {"end_processing_with_ok": ".endOk", "end_processing_with_error": ".endError",
+                "start_processing_format_read_args": ".startFormatRead", "start_processing_format_test_args": ".startFormatTest"}[name]
+    if name == "start_flush_io_buffer":
+        if fsm == "uns":
+            raise Unrecognised("command-machine flush in the unsolicited branch")
+        a = const(args[1])
+        if not a.startswith("CAT_STATE_") or a not in AFTER:
+            raise Unrecognised("flush target " + a)
+        return ".startFlush .%s" % AFTER[a]
+    if name == "unsolicited_start_flush_io_buffer":
+        if fsm != "uns":
+            raise Unrecognised("unsolicited flush outside the unsolicited branch")
+        a = const(args[1])
+        if not a.startswith("CAT_UNSOLICITED_STATE_") or a not in AFTER:
+            raise Unrecognised("flush target " + a)
+        return ".startFlush .%s" % AFTER[a]
+    if name == "hold_exit":
+        a = const(args[1])
+        if a == "CAT_STATUS_OK":
+            return ".holdExit true"
+        if a == "CAT_STATUS_ERROR":
+            return ".holdExit false"
+        raise Unrecognised("hold_exit status " + a)
+    raise Unrecognised("call of %s in a switch arm" % name)
+
+
+def arm_calls(stmts, fsm, per_fsm):
+    """statements of one arm (up to break) -> either list of call texts, or {'cmd': [...], 'uns': [...]}"""
+    res = []
+    for st in stmts:
+        k = st["kind"]
+        if k == "BreakStmt":
+            break
+        if is_noise(st):
+            continue
+        if k == "SwitchStmt" and per_fsm:
+            cond = strip(st["inner"][0])
+            if cond.get("referencedDecl", {}).get("name") != "fsm":
+                raise Unrecognised("nested switch not on fsm")
+            arms = switch_arms(st, None, False)
+            d = {}
+            for labels, body in arms:
+                for lb in labels:
+                    if lb == "CAT_FSM_TYPE_ATCMD":
+                        d["cmd"] = arm_calls(body, "cmd", False)
+                    elif lb == "CAT_FSM_TYPE_UNSOLICITED":
+                        d["uns"] = arm_calls(body, "uns", False)
+            if set(d) != {"cmd", "uns"} or res:
+                raise Unrecognised("nested fsm switch shape")
+            return d
+        if k == "IfStmt" and per_fsm:
+            cond = strip(st["inner"][0])
+            if cond["kind"] == "BinaryOperator" and cond["opcode"] == "==" and strip(cond["inner"][0]).get("referencedDecl", {}).get("name") == "fsm" \
+                    and strip(cond["inner"][1]).get("referencedDecl", {}).get("name") == "CAT_FSM_TYPE_ATCMD" and len(st["inner"]) == 3 and not res:
+                th = st["inner"][1]
+                el = st["inner"][2]
+                return {"cmd": arm_calls(th["inner"] if th["kind"] == "CompoundStmt" else [th], "cmd", False),
+                        "uns": arm_calls(el["inner"] if el["kind"] == "CompoundStmt" else [el], "uns", False)}
+            raise Unrecognised("if in a switch arm")
+        res.append(call_to_lean(st, fsm))
+    return res
+
+
+def switch_arms(sw, _unused, _x):
+    """[(labels, stmts)] with fall-through labels grouped; label = enum name or 'default'"""
+    body = sw["inner"][-1]
+    arms = []
+    cur_labels, cur = None, []
+
+    def unwrap(st):
+        labels = []
+        while st["kind"] in ("CaseStmt", "DefaultStmt"):
+            if st["kind"] == "CaseStmt":
+                labels.append(strip(st["inner"][0]).get("referencedDecl", {}).get("name") or str(strip(st["inner"][0]).get("value")))
+                st = st["inner"][-1]
+            else:
+                labels.append("default")
+                st = st["inner"][-1]
+        return labels, st
+    for st in body["inner"]:
+        if st["kind"] in ("CaseStmt", "DefaultStmt"):
+            labels, first = unwrap(st)
+            if cur_labels is not None and not any(x["kind"] in ("BreakStmt", "ReturnStmt") for x in cur):
+                # fall through from the previous arm without break
+                labels = cur_labels + labels
+                cur = cur + [first]
+                cur_labels = labels
+                continue
+            if cur_labels is not None:
+                arms.append((cur_labels, cur))
+            cur_labels, cur = labels, [first]
+        else:
+            cur.append(st)
+    if cur_labels is not None:
+        arms.append((cur_labels, cur))
+    return arms
+
+
+def t3(ast, ev):
+    out, rep = [], {}
+    for fn, per_fsm in (("process_write_loop", False), ("process_run_loop", False), ("process_read_loop", True), ("process_test_loop", True)):
+        try:
+            _, body = find_fn(ast, fn)
+            sws = [s for s in body["inner"] if s["kind"] == "SwitchStmt"]
+            if len(sws) != 1:
+                raise Unrecognised("expected one switch")
+            sw = sws[0]
+            # the switch must be on the handler call
+            arms = switch_arms(sw, None, None)
+            table = {}
+            default = None
+            for labels, stmts in arms:
+                calls = arm_calls(stmts, "cmd" if not per_fsm else None, per_fsm)
+                for lb in labels:
+                    if lb == "default":
+                        default = calls
+                    else:
+                        if lb not in ev:
+                            raise Unrecognised("case label " + str(lb))
+                        table[ev[lb]] = calls
+            if default is None:
+                raise Unrecognised("no default arm")
+
+            def fmt(c):
+                if isinstance(c, dict):
+                    return "(match f with | .cmd => [%s] | .uns => [%s])" % (", ".join(c["cmd"]), ", ".join(c["uns"]))
+                return "[%s]" % ", ".join(c)
+            lines = ["def %s (ret : Int)%s : List Call :=" % (fn, " (f : Fsm)" if per_fsm else "")]
+            first = True
+            for v in sorted(table):
+                if table[v] == default:
+                    continue
+                lines.append("  %s ret = %d then %s" % ("if" if first else "else if", v, fmt(table[v])))
+                first = False
+            lines.append(("  else %s" if not first else "  %s") % fmt(default))
+            txt = "\n".join(lines)
+            if per_fsm and " f " not in txt and "match f" not in txt:
+                txt = txt.replace("(f : Fsm)", "(_f : Fsm)")
+            out.append(txt)
+            rep[fn] = "translated"
+        except Unrecognised as ex:
+            out.append(None)
+            rep[fn] = "fallback: %s" % ex
+    return out, rep
+
+
+# ------------------------------------------------------------------------------------ T5
+
+def t5(ast):
+    locked, unlocked = [], []
+    rep = {}
+    for n in ast["inner"]:
+        if n.get("kind") != "FunctionDecl" or n.get("storageClass") == "static" or not n.get("name", "").startswith("cat_"):
+            continue
+        body = [c for c in n.get("inner", []) if c.get("kind") == "CompoundStmt"]
+        if not body:
+            continue
+        sts = [s for s in body[0].get("inner", []) if not is_noise(s) and s["kind"] != "DeclStmt"]
+        if is_bracket(sts):
+            locked.append(n["name"])
+        else:
+            unlocked.append(n["name"])
+            # an unlocked function must not mention the mutex at all
+            if n["name"] != "cat_init" and "mutex" in json.dumps(body[0]):
+                rep[n["name"]] = "uses the mutex outside the lock/body/unlock shape"
+    return sorted(locked), sorted(unlocked), rep
+
+
+def mentions(n, what):
+    return what in json.dumps(n)
+
+
+def is_bracket(sts):
+    """if (mutex && lock() != 0) return MUTEX_LOCK;  <body statements>;  if (mutex && unlock() != 0) return MUTEX_UNLOCK;
+    return <expr without self>  — the lock guard is the first statement, the unlock guard and a return that does not
+    look at the object are the last two, and the body mentions neither lock nor unlock"""
+    if len(sts) < 4:
+        return False
+    a, c, d = sts[0], sts[-2], sts[-1]
+    if a["kind"] != "IfStmt" or c["kind"] != "IfStmt" or d["kind"] != "ReturnStmt":
+        return False
+
+    def guard(ifs, member, status):
+        j = json.dumps(ifs["inner"][0])
+        r = ifs["inner"][1]
+        r = r["inner"][0] if r["kind"] == "CompoundStmt" else r
+        return ('"name": "%s"' % member) in j and '"name": "mutex"' in j and r["kind"] == "ReturnStmt" and status in json.dumps(r) and len(ifs["inner"]) == 2
+    if not guard(a, "lock", "CAT_STATUS_ERROR_MUTEX_LOCK") or not guard(c, "unlock", "CAT_STATUS_ERROR_MUTEX_UNLOCK"):
+        return False
+    for b in sts[1:-2]:
+        j = json.dumps(b)
+        if '"name": "mutex"' in j or b["kind"] == "ReturnStmt" or '"kind": "ReturnStmt"' in j:
+            return False
+    # the final return must not look at the object
+    if '"name": "self"' in json.dumps(d):
+        return False
+    return True
+
+
+# ------------------------------------------------------------------------------------ assembly
+
+HEADER = '''/- GENERATED by tools/translate.py from /repo/src/cat.c and /repo/src/cat.h — do not edit.
+   Regenerated on every check; the model is defined through these definitions. -/
+import CatVerif.Model.Types
+namespace Cat.Gen
+'''
+
+
+def expected_defs():
+    """name -> definition text from the committed expected copy (for fallbacks)"""
+    txt = open(EXPECTED).read()
+    defs = {}
+    for m in re.finditer(r"^(?:/--.*?-/\n)?def (\w+).*?(?=^\S|\Z)", txt, flags=re.M | re.S):
+        defs[m.group(1)] = m.group(0).rstrip()
+    return defs
+
+
+def generate():
+    ast = load_ast()
+    rep = {}
+    en, ev = enums(ast)
+    parts = [HEADER, "/-! T1: enumerators -/"]
+    for k, v in en:
+        parts.append("def %s : Int := %d" % (k, v))
+    for k, v in defines():
+        parts.append("def %s : Int := %d" % (k, v))
+    rep["T1"] = "translated (%d enumerators, %d defines)" % (len(en), len(DEFINES) + 1)
+    exp = expected_defs() if os.path.exists(EXPECTED) else {}
+
+    def add(items, names_rep):
+        for txt, (name, status) in zip(items, names_rep.items()):
+            if txt is None:
+                if name not in exp:
+                    raise Unrecognised("no expected definition for " + name)
+                parts.append(exp[name])
+            else:
+                parts.append(txt)
+            rep[name] = status
+    parts.append("\n/-! T2: expression-bodied helpers (C `int` semantics over `Int`; `b2i` is C's 0/1) -/")
+    parts.append("def b2i (b : Bool) : Int := if b then 1 else 0")
+    items, r = t2(ast, ev)
+    add(items, r)
+    parts.append("\n/-! T3: return-code switches -/")
+    items, r = t3(ast, ev)
+    add(items, r)
+    parts.append("\n/-! T5: public functions bracketed by lock/unlock around a single body call -/")
+    locked, unlocked, r5 = t5(ast)
+    parts.append("def locked_api : List String := [%s]" % ", ".join('"%s"' % x for x in locked))
+    parts.append("def unlocked_api : List String := [%s]" % ", ".join('"%s"' % x for x in unlocked))
+    rep["T5"] = "translated" if not r5 else "anomaly: %s" % r5
+    parts.append("\nend Cat.Gen\n")
+    return "\n".join(parts), rep
+
+
 def regenerate():
-    return {"status": "not-run"}
+    """write Gen/Source.lean if its content changed; returns a report dict"""
+    try:
+        txt, rep = generate()
+    except Exception as ex:     # clang missing, AST shape entirely different …
+        return {"status": "failed", "error": repr(ex)[:300], "note": "Gen/Source.lean left as committed (expected copy)"}
+    with lib.Lock("gen"):
+        old = open(GEN).read() if os.path.exists(GEN) else ""
+        if old != txt:
+            with open(GEN, "w") as f:
+                f.write(txt)
+    exp = open(EXPECTED).read() if os.path.exists(EXPECTED) else ""
+    fall = {k: v for k, v in rep.items() if not v.startswith("translated")}
+    return {"status": "ok", "changed_vs_expected": txt != exp, "fallbacks": fall, "items": len(rep),
+            "sha": hashlib.sha256(txt.encode()).hexdigest()[:12]}
+
+
+if __name__ == "__main__":
+    if len(sys.argv) > 1 and sys.argv[1] == "--print":
+        sys.stdout.write(generate()[0])
+    else:
+        print(json.dumps(regenerate(), indent=1))
